@@ -85,7 +85,7 @@ Fixpoint str_under_any (t : ty) (v : val) {struct t} : bool :=
 
 (* 0 inside the guard of C05_channels_agree;
    1 finding none-unchecked      : None where the type does not admit it (lenient_check returns it unchecked)
-   2 finding clash-key-unadapted : a key component is a Namespace clash name
+   2 finding clash-key-unadapted : a key component is a Namespace clash name (and the setting is otherwise inside the guard)
    3 finding literal-eq-channels : the text and the value part ways only because Literal compares with ==
    4 finding jsonnet-numbers     : a jsonnet-mode parser and a number jsonnet re-renders differently
    5 outside the property's quantifier (nothing is demanded): a string below an Any position, or the text is not
@@ -95,12 +95,11 @@ Definition class_of (c : case) : N :=
   let C := chk (yl c) in
   let t := c_ty c in let s := c_text c in let v := c_val c in
   if negb (g_none C t v) then 1
-  else if c_clash c then 2
   else if str_under_any t v then 5
   else if negb (g_reads C t s v) && guard (chk_lit (yl c)) t s v then 3
   else if negb (g_reads C t s v) && (has_string v || ty_has_str_any t) then 5
   else if c_jsonnet c && jsonnet_lossy v then 4
-  else if guard C t s v then 0
+  else if guard C t s v then (if c_clash c then 2 else 0)
   else 6.
 
 Definition spec_ok (c : case) : bool :=
